@@ -126,6 +126,14 @@ def gen(rng, ctx):
         cd["nodes"] += [["qz", "buf", False], ["nz", "not", False]]
         cd["edges"] += [[f"{inst}.{fl['q']}", "qz"], ["qz", "nz"], ["nz", rng.choice(spare)]]
         nf += 1
+    if rng.random() < 0.06:
+        # a primary input / output net that carries the NAME of a flop instance (ff q0 (.Q(q0)) style)
+        io_ = [x for x in nodes if tps[x] == "input" or x in G.cd_outputs(cd)]
+        if io_:
+            try:
+                cd = G.cd_rename(cd, {rng.choice(io_): f"r{rng.randrange(nf)}"})
+            except ValueError:
+                pass
     if rng.random() < 0.1:
         # ordinary nets named like a flattened pin (wr_EN, scan_CK ...): they are not pins
         cand = [x for x in nodes if tps[x] in G.ALL_GATES]
